@@ -349,6 +349,69 @@ class Fragment:
         self._lost(f'local {logical}: {regex}')
         return False
 
+    def auto_annotate_pure_predicates(self):
+        """V-CLOSURE (automatic): a closure argument that no unit-specific rewrite has given a contract, whose body is a
+        pure boolean expression (field accesses, identifiers, literals, comparison / arithmetic / logic operators, no
+        calls, no blocks), gets `-> (__r: bool) ensures __r == (body)`; the body is kept byte for byte."""
+        cnt = 0
+        pos = 0
+        while True:
+            s = self._src()
+            m = None
+            for mm in re.finditer(r'[(,]\s*(?:move\s+)?\|([^|\n]*)\|\s*(?!->)', self.text[pos:]):
+                if s.mask[pos + mm.start()]:
+                    m = mm
+                    break
+            if m is None:
+                break
+            b0 = pos + m.end()
+            line = self.text[self.text.rfind('\n', 0, b0) + 1:self.text.find('\n', b0)]
+            depth = 0
+            i = b0
+            while i < len(self.text):
+                ch = self.text[i]
+                if s.mask[i]:
+                    if ch in '([{':
+                        depth += 1
+                    elif ch in ')]}':
+                        if depth == 0:
+                            break
+                        depth -= 1
+                    elif ch == ',' and depth == 0:
+                        break
+                i += 1
+            body = self.text[b0:i]
+            params = m.group(1)
+            pure = (re.fullmatch(r'[\w\s.*&!<>=|+\-()]+', body) is not None and not re.search(r'[A-Za-z_]\w*\s*\(', body)
+                    and re.search(r'<=|>=|==|!=|<|>|&&|\|\|', body) is not None and '_' not in re.sub(r'\w+', lambda q: '' if q.group(0) != '_' else '_', params)
+                    and not re.search(r'forall\||exists\||choose\||Seq::new|assert|invariant|ensures|requires|spec fn|proof|decreases', line))
+            if pure and body.strip():
+                new = f"-> (__r: bool) ensures __r == ({body.strip()}) {{ {body.strip()} }}"
+                self.text = self.text[:b0] + new + self.text[i:]
+                cnt += 1
+                pos = b0 + len(new)
+            else:
+                pos = b0
+        if cnt:
+            self.note('V-CLOSURE', cnt, 'automatic: predicate closure with a pure boolean expression body gets `-> (__r: bool) ensures __r == (body)`; body verbatim')
+        return cnt
+
+    def unannotated_closures(self):
+        """exec closures of the extracted code that carry no contract (`|x| body` without `-> (r: T) ensures ..`): the
+        verifier treats their result as arbitrary, so a failure in this function may be an artefact."""
+        s = self._src()
+        out = []
+        for m in re.finditer(r'(?:[(,=]|\breturn|=>)\s*(?:move\s+)?\|([^|\n]*)\|\s*(?!->)(\S)', self.text):
+            if not s.mask[m.start()]:
+                continue
+            if '-> (' in self.text[m.end() - 1:m.end() + 6]:
+                continue
+            line = self.text[self.text.rfind('\n', 0, m.start()) + 1:self.text.find('\n', m.end())]
+            if re.search(r'forall\||exists\||choose\||Seq::new|assert|invariant|ensures|requires|spec fn|proof|decreases', line):
+                continue
+            out.append(line.strip()[:100])
+        return out
+
     def fmt(self, text):
         names = getattr(self, 'names', {})
         return re.sub(r'@\{(\w+)\}', lambda m: names.get(m.group(1), m.group(1)), text)
@@ -461,26 +524,36 @@ class Fragment:
         byte*; only `|a, b|` becomes `|a: T, b: U| -> (r: R) ensures E { body }`."""
         s = self._src()
         idx = -1
-        start = 0
-        for _ in range(nth):
-            idx = self.text.find(call, start)
-            while idx >= 0 and not s.mask[idx]:
-                idx = self.text.find(call, idx + 1)
-            if idx < 0:
-                break
-            start = idx + 1
+        if hasattr(call, 'finditer'):
+            # regex anchor (must end with the opening parenthesis of the call)
+            ms = [m for m in call.finditer(self.text) if s.mask[m.start()]]
+            if len(ms) >= nth:
+                idx = ms[nth - 1].start()
+                call_len = ms[nth - 1].end() - ms[nth - 1].start()
+            call_repr = call.pattern
+        else:
+            call_repr = call
+            call_len = len(call)
+            start = 0
+            for _ in range(nth):
+                idx = self.text.find(call, start)
+                while idx >= 0 and not s.mask[idx]:
+                    idx = self.text.find(call, idx + 1)
+                if idx < 0:
+                    break
+                start = idx + 1
         if idx < 0:
             # the closure is gone (e.g. the combinator was written out as a match): nothing to annotate
-            self._lost(f'closure {call}')
+            self._lost(f'closure {call_repr}')
             return False
-        open_paren = idx + len(call) - 1
+        open_paren = idx + call_len - 1
         if self.text[open_paren] != '(':
-            raise ScanError(f"{self.what}: closure anchor must end with '(': {call!r}")
+            raise ScanError(f"{self.what}: closure anchor must end with '(': {call_repr!r}")
         close = s.match_close(open_paren)
         inner = self.text[open_paren + 1:close]
         mm = re.match(r'(\s*)(move\s+)?\|([^|]*)\|\s*', inner)
         if not mm:
-            raise ScanError(f"{self.what}: argument of {call!r} is not a closure")
+            raise ScanError(f"{self.what}: argument of {call_repr!r} is not a closure")
         body = inner[mm.end():].rstrip()
         tail_ws = inner[len(inner.rstrip()):]
         if body.endswith(','):
@@ -495,7 +568,7 @@ class Fragment:
         spec += f' ensures {ensures}' + (f' /* #obl:{obl} */' if obl else '')
         new_inner = f"{mm.group(1)}{mm.group(2) or ''}|{params}| -> ({ret}){spec} {blk}{tail_ws}"
         self.text = self.text[:open_paren + 1] + new_inner + self.text[close:]
-        self.note('V-CLOSURE', 1, f"closure in {call!r}: params `{mm.group(3)}` typed as `{params}`, result named, ensures added; body kept verbatim")
+        self.note('V-CLOSURE', 1, f"closure in {call_repr!r}: params `{mm.group(3)}` typed as `{params}`, result named, ensures added; body kept verbatim")
 
     def expand_local_macro(self, name):
         """V-MACRO: a single-arm `macro_rules! name { (params) => {{ body }}; }` defined inside the function is removed and
